@@ -23,9 +23,9 @@ META = {
     "property_id": "C02",
     "design_ref": "DESIGN.md §4 C02",
     "technique": "Coq proof over R (induction over the gradient history with the state correspondence as invariant) relating the C01 block-step model to hand-written models of torch.optim.{SGD,Adagrad,RMSprop,Adam,AdamW}; three-way correspondence evaluated by vm_compute: torch model vs real torch.optim, Shampoo vs the C01 model, and Shampoo vs torch.optim directly; per-block norm transfer checked on the implementation's parameter deltas",
-    "level_text": "Theorems (coq/props/C02.v) over the reals, for every history length, presence pattern and block shape: while the group's step counter is below start_preconditioning_step, Optimizer.block_step (the model C01 ties to /repo) run over a block's history yields, after every step, the same parameter values and corresponding state (second moment = grafting accumulator, first moment = filtered gradient, momentum buffer, step counter) as the model of torch.optim.SGD (momentum, Nesterov, coupled decay, dampening = 0; the guard is shown necessary by warmup_sgd_dampening_refuted), Adagrad (lr_decay 0), RMSprop (optional momentum), Adam and AdamW (beta3 = beta1, bias correction on, the block has a gradient whenever its group steps, exact float32 bias-correction scalars), torch running with the binary32 rounding of lr; from start_preconditioning_step on, every block's search direction is k x P_shampoo with k >= 0 and norm ||P_graft|| ||P_s|| / (||P_s|| + 1e-16).  All five warm-up theorems, the refutation and the norm-transfer theorems are fully proved (nothing partial).  Tie, on every run: the torch models are compared with the real torch.optim, the Shampoo model with DistributedShampoo (as in C01), and DistributedShampoo with torch.optim directly at 1e-12 on blocked, merged and higher-order parameters with absent-gradient patterns; per-block delta norms and directions after the start step.",
-    "level_note": "Trusted: Coq kernel + vm_compute; stdlib real-number axioms; both hand-written models, believed as far as the correspondence runs exercise them (binary64 parameters; lr binary32-representable and dyadic betas with <= 8 steps in the exact class so that Shampoo's float32 lr and bias-correction scalars are exact; a `loose` class with lr<=1e-2, betas .9/.999 at 2e-5: there Shampoo's float32 bias correction 1-beta2^t loses up to 3e-5 relative by cancellation).  The theorems are per block with the block's group counter (C02_group_step_block_event links the event semantics to group_step); that a parameter is the disjoint union of its blocks is C05; torch.optim is element-wise, so its restriction to a block's elements is the block's torch run (not restated as a theorem).  Floating-point rounding of either side is not modelled.",
-    "ready": False,
+    "level_text": "Theorems (coq/props/C02.v) over the reals, for every history length, presence pattern and block shape: while the group's step counter is below start_preconditioning_step, Optimizer.block_step (the model C01 ties to /repo) run over a block's history yields, after every step, the same parameter values and corresponding state (second moment = grafting accumulator, first moment = filtered gradient, momentum buffer, step counter) as the model of torch.optim.SGD (momentum, Nesterov, coupled decay, dampening = 0; the guard is shown necessary by warmup_sgd_dampening_refuted), Adagrad (lr_decay 0), RMSprop (optional momentum), Adam and AdamW (beta3 = beta1, bias correction on, the block has a gradient whenever its group steps, exact float32 bias-correction scalars), torch running with the binary32 rounding of lr; from start_preconditioning_step on, every block's search direction is k x P_shampoo with k >= 0 and norm ||P_graft|| ||P_s|| / (||P_s|| + 1e-16).  Also proved: the block-event semantics used in these statements is the k-th block of Optimizer.group_step iterated over any group history (C02_group_run_block), and each torch step distributes over concatenation (C02_*_step_blockwise: torch.optim is element-wise, so a parameter's torch trajectory restricted to a block is the block's torch trajectory, whatever the merging/blocking).  All theorems are fully proved (nothing partial, no _statement left).  Tie, on every run: the torch models are compared with the real torch.optim, the Shampoo model with DistributedShampoo (as in C01), and DistributedShampoo with torch.optim directly at 1e-12 on blocked, merged and higher-order parameters with absent-gradient patterns; per-block delta norms and directions after the start step.",
+    "level_note": "Trusted: Coq kernel + vm_compute; stdlib real-number axioms; both hand-written models, believed as far as the correspondence runs exercise them (binary64 parameters; lr binary32-representable and dyadic betas with <= 8 steps in the exact class so that Shampoo's float32 lr and bias-correction scalars are exact; a `loose` class with lr<=1e-2, betas .9/.999 at 2e-5: there Shampoo's float32 bias correction 1-beta2^t loses up to 3e-5 relative by cancellation).  The theorems are per block with the block's group counter; that a parameter is the disjoint union of its blocks is C05 (not re-proved here).  The Adam/AdamW theorems assume the float32 bias-correction scalars equal their real values (hints exact), as in C01.  Floating-point rounding of either side is not modelled.",
+    "ready": True,
 }
 
 KINDS = ["sgd", "adagrad", "rmsprop", "adam", "adamw"]
@@ -421,9 +421,9 @@ def run(ck: Check) -> None:
     logging.disable(logging.CRITICAL)
     ck.coq_props(extra_targets=["exec/RunOpt.vo", "exec/RunTorch.vo"])
     thorough = ck.tier == "thorough"
-    per_kind = 260 if thorough else 36
-    n_loose = 120 if thorough else 20
-    n_norm = 400 if thorough else 60
+    per_kind = 500 if thorough else 36
+    n_loose = 200 if thorough else 20
+    n_norm = 800 if thorough else 60
 
     warm = []
     corpus = common.ROOT / "corpus" / "C02"
@@ -444,7 +444,7 @@ def run(ck: Check) -> None:
     pair_v = {i: v for i, v in zip(idx, verdicts)}
 
     # (ii): Shampoo vs the Optimizer.v model on the same warm-up cases and on the post-start cases (shared with C01)
-    sub = warm if thorough else warm[: ncorpus + 140]
+    sub = warm if thorough else [c for j, c in enumerate(warm) if j < ncorpus or j % 4 != 3]     # quick: 3 of 4, every target
     res2, per2 = c01.evaluate(ck, sub + norm_cases, tag="c02m")
     model_bad = []
     for ci, pc in enumerate(per2):
